@@ -239,6 +239,8 @@ def gen_tempo(rng, shape):
     if shape == "clustered":                    # both estimates close to the same reference tempo
         t = rng.choice([a, b])
         est = np.array([t * rng.choice([1.0, 0.98, 1.03]), t * rng.choice([1.0, 1.02, 0.96])])
+        # ... and that tempo carries most of the weight (two hits on it must still count once)
+        w = rng.choice([0.75, 1.0]) if t == a else rng.choice([0.0, 0.25])
     if rng.random() < 0.3:
         est = est[::-1].copy()
     return ref, w, est
